@@ -16,3 +16,21 @@ CHECKS["C17"] = dict(
     technique="Verus contracts (requires/ensures/loop invariants) on extracted function text; representation invariant + lemmas",
     design_ref="DESIGN.md §3 C17",
 )
+CHECKS["C18"] = dict(
+    text="Complete proof of the per-path table: four loop-free Kani/CBMC harnesses over fully symbolic (a, b, base) — including arbitrary 32-byte digests and both entry types — on the unedited reconcile.rs (== table, mirror symmetry, dependence only on the equality pattern, no delete without base); plus an unbounded Verus proof that whole-tree reconcile emits exactly the non-trivial decisions for the union of paths, once each, with the base ignored when untrusted.",
+    note="Trusted: Kani+CBMC, Verus+Z3, extractor rules; assumed std contracts for sort_unstable/dedup/Option::copied, BTreeMap<PathBuf,_> key model, one R5 shim for keys().chain().collect().",
+    technique="Kani function harnesses (complete, loop-free) + Verus contract with loop invariant on extracted text",
+    design_ref="DESIGN.md §3 C18",
+)
+CHECKS["C19"] = dict(
+    text="Unbounded Verus proofs on extracted text: build_plan equals its set definitions (transfer/skipped/delete), glob_match equals the recursive wildcard semantics for all patterns and texts, is_excluded equals the component/whole-path rule; needs_transfer additionally proved complete by Kani on the real file. The remote-listing parser is outside reach and only validated differentially (reported as assumed_validated).",
+    note="Trusted: Verus+Z3, Kani+CBMC, extractor rules (R9 &BTreeMap in for, R10 continue, R5 shims), assumed std contracts (sort, map_or, copied, BTreeMap key model for PathBuf, std::path component grammar behind is_excluded's shims).",
+    technique="Verus contracts + loop invariants on extracted text; Kani harness for the loop-free quick check; twin validation for assumed contracts",
+    design_ref="DESIGN.md §3 C19",
+)
+CHECKS["C15"] = dict(
+    text="Proof (Verus) of the wildcard semantics, the exclude rule and the planner clauses 'excluded paths are never transferred or deleted' and 'no delete without the flag'. Dry-run clauses are decided for bisync only once the world-model unit is registered; sync -r --dry-run is undecided (tokio orchestration).",
+    note="Same trusted base as C19. Partial: the dry-run clause of `sync -r` and 'printed == performed' are not decided.",
+    technique="Verus contracts on extracted planner/matcher text",
+    design_ref="DESIGN.md §3 C15",
+)
